@@ -206,13 +206,27 @@ fn case(g: &mut Gen, ctx: &mut Ctx) -> CaseResult {
         if g.bool() {
             k.base_iv = g.nonempty_bytes();
         }
-        let n = g.below(9);
+        // mostly 0-8 extras; sometimes dozens (of mixed encoded lengths)
+        let many = g.ratio(1, 6);
+        let n = if many { 20 + g.below(60) } else { g.below(9) };
+        if many {
+            ctx.class("key:many-extras");
+        }
         for _ in 0..n {
-            let l = match g.weighted(&[5, 3, 1, 1]) {
+            let l = if many {
+                match g.below(4) {
+                    0 => Label::Int(g.range_i64(6, 23)),
+                    1 => Label::Int(g.range_i64(-24, 300)),
+                    2 => Label::Int(g.range_i64(-70000, 70000)),
+                    _ => Label::Text(format!("{}{}", g.pick(&["", "a", "bb", "ccc"]), g.range_i64(0, 99))),
+                }
+            } else {
+                match g.weighted(&[5, 3, 1, 1]) {
                 0 => Label::Int(*g.pick(EXTRA_LABELS)),
                 1 => Label::Text((*g.pick(EXTRA_TEXTS)).to_string()),
                 2 => Label::Int(g.i64()),
                 _ => Label::Text(g.text()),
+                }
             };
             // well-formed: distinct labels, none of a typed field
             if matches!(l, Label::Int(1..=5)) || k.params.iter().any(|(x, _)| *x == l) {
@@ -224,7 +238,7 @@ fn case(g: &mut Gen, ctx: &mut Ctx) -> CaseResult {
         k
     };
     ctx.class(if lenfirst { "ordering:length-first" } else { "ordering:lexicographic" });
-    ctx.classf(format!("extras:{}", key.params.len().min(8)));
+    ctx.classf(format!("extras:{}", match key.params.len() { n @ 0..=8 => n.to_string(), 9..=32 => "9-32".to_string(), _ => ">32".to_string() }));
     let mut sorted = key.clone();
     sorted.canonicalize(ordering(lenfirst));
     let reordered = !same(&sorted, &key);
@@ -243,7 +257,7 @@ pub fn property() -> Property {
     Property {
         id: "C20",
         title: "Canonicalising a key sorts its encoding and changes nothing else",
-        rule: "well-formed keys (constructed: every subset of kid/alg/key_ops/Base IV x kty class x 0-8 extras from a palette of small, large, negative, extreme and text labels in a tape-drawn order; or decoded from styled bytes) x both orderings; \
+        rule: "well-formed keys (constructed: every subset of kid/alg/key_ops/Base IV x kty class x 0-8 extras (one case in six: 20-80 extras of mixed encoded lengths) from a palette of small, large, negative, extreme and text labels in a tape-drawn order; or decoded from styled bytes) x both orderings; \
                exhaustive: every permutation of every subset of size <= 5 of a 9-label palette, and every subset of the typed fields; oracle: encoded keys strictly ascending under the ordering computed on own encodings, pair set unchanged, decoded key unchanged, idempotence, byte-stable re-encoding; \
                non-trivial = >= 2 extras that canonicalisation reorders, or extras together with typed fields; distinct by (key, ordering)",
         assumptions: &["orderings computed by the harness on its own deterministic encodings of the emitted map keys (strict reader)"],
